@@ -2,7 +2,8 @@
 (* (V) for C14 / C15.                                                                  *)
 (* "basis" events: every (i, m, x) value returned by bsplev_single_f64 /               *)
 (*   bspldnev_single_f64 against the piecewise-polynomial definition of BSpline.tla,   *)
-(*   plus non-negativity, local support and partition of unity on the RECORDED values. *)
+(*   plus non-negativity, local support and partition of unity on the RECORDED values; *)
+(*   the Dual / Dual2 entry points of the same functions by the chain rule.           *)
 (* "spline" events: a solved PPSpline of any of the three types:                       *)
 (*   - interpolation at the interior sites and the derivative conditions at the two    *)
 (*     end sites (collocation, recomputed from the logged coefficients);               *)
@@ -33,6 +34,19 @@ BasisOK(e) ==
   /\ \A q \in 1..Len(e.xs) : InDomain(t, e.xs[q]) =>
         FClose(FSumL([i \in 1..n |-> e.vals[i][1][q]]), FOne, FOne)             \* sums to one, right end point included
 
+\* the dual-abscissa entry points: value D^m B_i(x), first order D^(m+1) B_i * dx, second order D^(m+1) B_i * d2x +
+\* D^(m+2) B_i * dx dx^T (chain rule on the piecewise polynomial), kind and variable list of the abscissa kept
+DualBasisOK(e) ==
+  LET NS == {"x", "w"} IN
+  \A q \in 1..Len(e.dvals) :
+     LET r == e.dvals[q] xa == Abstract(r.x, NS)
+         b0 == DBasis(e.t, r.i, e.k, r.m, r.x.re) b1 == DBasis(e.t, r.i, e.k, r.m + 1, r.x.re) b2 == DBasis(e.t, r.i, e.k, r.m + 2, r.x.re)
+         W == [re |-> b0.v, g |-> [n \in NS |-> FMul(b1.v, xa.g[n])],
+               h |-> [p \in NS \X NS |-> FAdd(FMul(b1.v, xa.h[p]), FMul(b2.v, FMul(xa.g[p[1]], xa.g[p[2]])))],
+               sre |-> b0.s, sg |-> [n \in NS |-> FAbs(FMul(b1.s, xa.g[n]))],
+               sh |-> [p \in NS \X NS |-> FAdd(FAbs(FMul(b1.s, xa.h[p])), FAbs(FMul(b2.s, FMul(xa.g[p[1]], xa.g[p[2]]))))]]
+     IN /\ IsNum(r.res) /\ r.res.k = r.x.k /\ ShapeOK(r.res) /\ r.res.vars = r.x.vars
+        /\ CloseTo(r.res, W, NS)
 \* ---------------------------------------------------------------- C15
 \* sum_i C_i * Bi  with  Bi = D^m B_i at a float abscissa (a constant) or at a dual abscissa (chain rule)
 BasisNum(t, k, i, m, xa, isF, NS) ==
@@ -97,7 +111,7 @@ SplineOK(e) ==
                             LET W == EvalAcc(e.t, e.k, U, v.m, Const(v.x.re, NS), TRUE, 0, ZeroW(NS), NS)
                                 nm == "y" \o ToString(j - 1)
                             IN FClose(G(v.res, nm), W.re, FAdd(W.sre, FOne)))
-EventOK(e) == IF e.op = "basis" THEN (Prop = "C15" \/ BasisOK(e)) ELSE (Prop = "C14" \/ SplineOK(e))
+EventOK(e) == IF e.op = "basis" THEN (Prop = "C15" \/ (BasisOK(e) /\ DualBasisOK(e))) ELSE (Prop = "C14" \/ SplineOK(e))
 VARIABLES i, ok
 vars == <<i, ok>>
 Init == i \in 1..Len(Rec) /\ ok = EventOK(Rec[i])
